@@ -380,6 +380,13 @@ def run(prop):
     if len(outs) != len(cases):
         raise vf.NotAVerdict("harness returned %d of %d cases" % (len(outs), len(cases)))
     outs.sort(key=lambda o: o["i"])
+    nskipped = sum(1 for o in outs if o.get("skipped"))
+    if nskipped:
+        ck.cov["not_explored"].append("%d scenario(s) not run after 12 scenarios were confirmed as non-terminating" % nskipped)
+        keep = [o for o in outs if not o.get("skipped")]
+        if not any(f["kind"] == "hang" for o in keep for f in o["findings"]):
+            raise vf.NotAVerdict("scenarios were skipped although no hang finding was reported")
+        outs = keep
     for o in outs:
         if o.get("harness"):
             raise vf.NotAVerdict("harness inconsistency on case %s: %s" % (o["id"], o["harness"]))
